@@ -1612,6 +1612,33 @@ def corpus():
 
 
 # ------------------------------------------------------------------ streams
+def tie_check(ctx, prog, tie, verdict, stream):
+    """The refinement theorems' own definitions, evaluated by the driver on this program: for every import line
+    the line record `impAt i pre source q` against the record built from the text, and the destination
+    `impDest parents i pre` (computed from the model's hierarchy stack) against the destination of the
+    specification statement; `fragRunB` (the executable side condition of C17_refinement_checked_partial) for the
+    main program.  A destination / record that differs on a program the specification judges means the theorem
+    speaks about another line than the one that is run: reported as a broken tie."""
+    if not tie:
+        return
+    for t in tie.get("imports", []):
+        where = "indented" if t["indent"] > 0 else "root"
+        ctx.count("tie.import_line_%s.%s" % (where, "same" if t["line"] else "differs"))
+        ctx.count("tie.import_dest_%s.%s" % (where, "same" if t["dest"] else "differs"))
+        if verdict == "ok" and not (t["line"] and t["dest"]):
+            ctx.disagreement(stream + ":theorem-tie", {"program": prog},
+                             "import line: impAt/impDest of the refinement theorem differ from the line that is run: %s" % (t,))
+    if "frag" in tie:
+        ctx.count("tie.fragRunB.%s" % ("accepts" if tie["frag"] else "refuses"))
+    if "nested" in tie:
+        # runNB (C17_refinement_nested_checked_partial) on the main program read as NLines; "accepts" also means that
+        # the line records the theorem speaks about are, field by field, the records the model was run on
+        # (a count only: the theorem is conditional on the specification accepting the program, so an accepted
+        # program with verdict "rejected" is no contradiction)
+        ctx.count("tie.runNB.%s" % tie["nested"])
+        ctx.count("tie.runNB.%s.spec_%s" % (tie["nested"], verdict))
+
+
 def prog_stream(ctx, progs, stream):
     """progs: list of (label, program)."""
     impls = []
@@ -1640,6 +1667,7 @@ def prog_stream(ctx, progs, stream):
                  {"main": text_of(prog["main"])[:400], "spec": verdict, "impl": imp["status"]})
         ctx.count("%s.spec_%s" % (stream, verdict))
         ctx.count("%s.impl_%s" % (stream, imp["status"]))
+        tie_check(ctx, prog, r["ok"].get("tie"), verdict, stream)
         ctx.count("%s.mode_%s" % (stream, ("base" if prog.get("base") is not None else "") + ("remote" if prog["sources"] else "") or "local"))
         for l in prog["main"]:
             if l["k"] in ("def", "mod") and "ref" in l["val"]:
